@@ -339,7 +339,8 @@ def vin (e : Env) (role : Role) (req : Req) : VIn :=
   { now := e.now, reqTTL := req.ttl, reqNotAfter := req.notAfter, roleNotAfter := role.notAfter, nab := role.nab,
     roleTTL := role.ttl, roleMaxTTL := role.maxTTL, mountDefault := e.mountDefault, mountMax := e.mountMax,
     issuer := some (e.issuerNotAfter, e.lnab), reqNotBefore := req.notBefore, roleNotBefore := role.notBefore,
-    nbb := role.nbb, nbd := role.nbd }
+    -- `buildSignVerbatimRole`: the synthetic role of sign-verbatim takes the request's not_before verbatim
+    nbb := if req.ep == .verbatim then .permit else role.nbb, nbd := role.nbd }
 
 def verrClass : VErr → String
   | .naForbid => "na-forbid" | .ttlBoth => "ttl-both" | .naTTLLimited => "na-ttl" | .naPast => "na-past"
